@@ -414,7 +414,7 @@ def run_scenario(sc, chooser=None, seed=0, max_steps=6000):
     for vt in sched.vts:
         if vt.exc is not None:
             viol.append("unexpected exception in %s: %r" % (vt.name, vt.exc))
-    return {"lines": lines, "outcome": outcome, "monitor": viol, "c20": c20, "choices": list(sched.choices), "steps": sched.steps,
+    return {"lines": lines, "outcome": outcome, "monitor": viol, "c20": c20, "choices": list(sched.choices), "cand_counts": list(sched.cand_counts), "steps": sched.steps,
             "switches": sched.context_switches, "stuck": stuck, "alerts": st["alerts"]}
 
 
